@@ -61,9 +61,12 @@ def _tree(depth):
                            min_size=1, max_size=4).map(lambda d: ['dict', d])
 
 
+STRATA = {'dict': 2, 'model': 2, 'spectrum': 1, 'retrieval': 1}
+
+
 @st.composite
-def _case(draw):
-    part = draw(S.pick(['dict', 'model', 'spectrum', 'retrieval', 'dict', 'model']))
+def _case(draw, part=None):
+    part = part or draw(S.pick(['dict', 'model', 'spectrum', 'retrieval', 'dict', 'model']))
     c = {'part': part}
     if part == 'retrieval':
         from vlib.props import c09
@@ -97,8 +100,8 @@ def _case(draw):
     return c
 
 
-def strategy(tier):
-    return _case()
+def strategy(tier, part=None):
+    return _case(part)
 
 
 # ---------------------------------------------------------------------------------------------------
